@@ -466,7 +466,10 @@ impl Datamodel for RFsmExpressionDatamodel {
                         let data_lock = &mut self.global_data.lock().unwrap();
                         match rs {
                             Ok(val) => {
-                                data_lock.data.set_undefined_arc(name.clone(), val.clone());
+                                // A value of its own: an expression that names a variable yields that
+                                // variable's value object (incl. its read-only flag).
+                                let initial_value = val.lock().unwrap().clone();
+                                data_lock.data.set_undefined(name.clone(), initial_value);
                             }
                             Err(err) => {
                                 error!("Error on Initialize '{}': {}", name, err);
